@@ -50,6 +50,9 @@ def check(tier: str) -> Result:
     n_wo = move_rules.write_order_obligations(res, tree, "C07.R6")
     if n_wo < 3:
         raise AnalysisError(f"only {n_wo} two-write moves found (hand-confirmed minimum 3 of SlidingTilePuzzle, RobotWarehouse x2, Sokoban)")
+    n_re = move_rules.reencoding_obligations(res, tree, "C07.R7")
+    from . import lbf_rules as _lbf
+    _lbf.occupancy_obligations(res, tree, "C07.R8")
     res.analysed = {"strict_environments": axis_rules.STRICT, "typed_sites": n, "paired_reset_step_call_arguments": n_p, "per_environment": per}
     res.assumptions = ["row-major arrays; the repository's naming convention for extents (confirmed by reading all 23 environments)",
                        "environments with a single extent symbol for both axes are not typed (square by construction)"]
